@@ -132,8 +132,8 @@ func runC04(ctx *Ctx) *Report {
 				for ai, extra := range [][]string{nil, {"--massive-timeout", "30s"}, {"--massive", "--massive-timeout", "30s"}, {"--massive"}, {"-mt", "1m"}} {
 					massive := false
 					for _, e := range extra {
-						if e == "--massive" {
-							massive = true
+						if e == "--massive" || e == "--massive-timeout" || e == "-mt" {
+							massive = true // a timeout alone selects the massive mode too (cmd/gtree/main.go)
 						}
 					}
 					if massive && len(f) != 1 {
